@@ -99,6 +99,12 @@ fn gen_ctx(rng: &mut Rng) -> Ctx14 {
         xti.push(rng.usize(n_sheets));
     }
     let mut names: Vec<String> = (0..rng.usize(4)).map(|i| ["Total", "Rate_2", "tax.rate", "Q1_total"][i].to_string()).collect();
+    // a built-in name (one character: 0x06 = Print_Area, 0x0D = _FilterDatabase; the xls Lbl
+    // record carries the fBuiltin flag) in front of or between the user-defined names
+    if rng.chance(1, 3) {
+        let at = rng.usize(names.len() + 1);
+        names.insert(at, if rng.bool() { "\u{6}".to_string() } else { "\u{d}".to_string() });
+    }
     // a name without formula (e.g. a VBA function declaration) still occupies its index
     let formula_less = if rng.chance(1, 3) {
         let at = rng.usize(names.len() + 1);
@@ -182,10 +188,14 @@ fn file_case(rng: &mut Rng, out: &mut UnitResult, unit: u64, i: u64) {
     for (si, name) in c.sheets.iter().enumerate() {
         let mut sh = MSheet::new(name);
         let mut exp = BTreeMap::new();
-        let r0 = if rng.bool() { 0 } else { rng.range_u32(0, (g.max_row - 40).min(70_000)) };
+        let at_end = fmt != "ods" && rng.chance(1, 6); // (the ods writer walks every row from 0)
+        let r0 = if at_end { g.max_row - 30 } else if rng.bool() { 0 } else { rng.range_u32(0, (g.max_row - 40).min(70_000)) };
         let c0 = if rng.bool() { 0 } else { rng.range_u32(0, g.max_col - 12) };
         for k in 0..rng.usize(10) {
-            let p = (r0 + rng.range_u32(0, 30), c0 + rng.range_u32(0, 10));
+            let p = (if at_end && k == 0 { g.max_row } else { r0 + rng.range_u32(0, 30) }, c0 + rng.range_u32(0, 10));
+            if at_end && k == 0 {
+                out.feat(&format!("{}:last_row", fmt));
+            }
             let e = fml::gen_expr(rng, &g, 0);
             let text = match fmt {
                 "ods" => format!("of:={}", e.a1(&env)),
@@ -257,6 +267,9 @@ fn file_case(rng: &mut Rng, out: &mut UnitResult, unit: u64, i: u64) {
         .collect();
     if c.formula_less.is_some() && (fmt == "xls" || fmt == "xlsb") {
         out.feat("formula_less_name");
+    }
+    if c.names.iter().any(|n| n.chars().count() == 1 && (n.as_bytes()[0] as u32) < 0x0E) && fmt == "xls" {
+        out.feat("xls:builtin_name");
     }
     let want_names: Vec<(String, String)> = name_defs.iter().map(|(n, e)| (n.clone(), e.a1(&env))).collect();
     // ---- encode, open, compare
@@ -400,7 +413,7 @@ impl Prop for C14 {
         Some("column lettering: push_column for every column 0..16383".into())
     }
     fn mandatory(&self, _t: Tier) -> Vec<String> {
-        let mut v: Vec<String> = ["push_column_sweep", "file:xls", "file:xlsb", "file:xlsx", "file:ods", "defined_names:xls", "defined_names:xlsb", "formula_less_name", "ods:formula_without_cached_value"].iter().map(|s| s.to_string()).collect();
+        let mut v: Vec<String> = ["push_column_sweep", "file:xls", "file:xlsb", "file:xlsx", "file:ods", "defined_names:xls", "defined_names:xlsb", "formula_less_name", "xls:builtin_name", "xlsb:last_row", "ods:formula_without_cached_value"].iter().map(|s| s.to_string()).collect();
         for f in ["xls", "xlsb"] {
             for k in ["PtgRef", "PtgArea", "PtgRef3d", "PtgArea3d", "PtgName", "PtgInt", "PtgNum", "PtgStr", "PtgBool", "PtgErr", "PtgMissArg", "unary", "binary", "PtgParen", "PtgFunc", "PtgFuncVar", "PtgAttrSum"] {
                 v.push(format!("{}:{}", f, k));
